@@ -156,6 +156,23 @@ impl Runner {
         o
     }
 
+    /// statements of a session that VACUUM has aborted
+    pub fn zombie_stmt(&mut self, s: u32, st: &Stmt) -> Out {
+        let sql = st.sql();
+        let o = self.eng.exec(s, &sql);
+        self.note(&o);
+        self.t.ev(json!({"ev": "zombie", "s": s, "sql": sql, "out": out_json(&o)}));
+        o
+    }
+
+    pub fn zombie_commit(&mut self, s: u32) -> Out {
+        let o = self.eng.commit(s);
+        self.note(&o);
+        self.t.ev(json!({"ev": "zcommit", "s": s, "out": o.json()}));
+        self.eng.drop_session(s);
+        o
+    }
+
     pub fn flush(&mut self) -> Out {
         let o = self.eng.flush();
         self.note(&o);
